@@ -30,6 +30,8 @@ func c15Patterns() []ref.Pat {
 		rep(A, 1, 3), seq(A, rep(B, 1, 3), C), seq(rep(A, 0, 2), B), rep(seq(A, B), 1, 3), rep(A, 2, 4),
 		// PERMUTE of three elements (all six arrival orders)
 		ref.PPermute{Items: []ref.Pat{A, B, C}},
+		// an exact count next to a variable-length part (greedy selection must not be lost on the way)
+		seq(rep(A, 2, 2), rep(seq(B, C), 0, 1)), seq(rep(A, 2, 2), rep(B, 0, -1), C), seq(rep(A, 2, 2), rep(B, 1, -1)),
 	}
 }
 
